@@ -106,6 +106,13 @@ class NP:
         c.assume(z3.ForAll([j], z3.Implies(z3.And(j >= 0, j < n), z3.And(perm(j) >= 0, perm(j) < n, inv(perm(j)) == j))))
         c.assume(z3.ForAll([j], z3.Implies(z3.And(j >= 0, j < n), z3.And(inv(j) >= 0, inv(j) < n, perm(inv(j)) == j))))
         c.assume(z3.ForAll([a, b], z3.Implies(z3.And(0 <= a, a < b, b < n), lift(x.at(perm(a))) <= lift(x.at(perm(b))))))
+        try:
+            # the SAME surjectivity axiom once more, with a trigger on the sorted sequence's own elements: a goal about x[q] then instantiates inv(q)
+            # by E-matching instead of waiting for model-based instantiation (which finds it in about two attempts of three, section 7.10b)
+            xj = lift(x.at(j))
+            c.assume(z3.ForAll([j], z3.Implies(z3.And(j >= 0, j < n), z3.And(inv(j) >= 0, inv(j) < n, perm(inv(j)) == j)), patterns=[xj]))
+        except z3.Z3Exception:
+            pass
         return SymSeq(n, lambda q: Sym(perm(lift(q))), SInt, "argsort")
 
     @staticmethod
